@@ -70,6 +70,10 @@ def rename_desc(desc, rng):
         else:
             p[mp.get(k, k)] = v
     d["params"] = p
+    if desc.get("scalar_functions"):
+        d["scalar_functions"] = [mp.get(n, n) for n in desc["scalar_functions"]]
+    if desc.get("frozen_params"):
+        d["frozen_params"] = [[mp.get(a, a), b] for a, b in desc["frozen_params"]]
     return d, mp
 
 
@@ -226,6 +230,8 @@ def run_case(case):
         d5 = dict(desc)
         d5["functions"] = [[ren.get(n, n), a, e] for n, a, e in desc["functions"]]
         d5["params"] = {ren.get(k, k): v for k, v in params.items()}
+        if desc.get("scalar_functions"):
+            d5["scalar_functions"] = [ren.get(n, n) for n in desc["scalar_functions"]]
         compare("filter_as_constraint", d5, vanish_is_neginf=True)
     res["features"] = {**{k: bool(v) for k, v in realised.items()}, "has_filter": bool(filt)}
     res["sig"] = f"{dsl.shape_signature(desc)}#{pipeline.param_hash(params)}"
